@@ -88,6 +88,10 @@ func runWatchScenario(t *testing.T, sc watchScen, hello []byte) (evs []Ev, crash
 			} else if sc.Stall > 0 {
 				cl.Write(hello[:sc.Stall])
 			}
+			if sc.HelloAt < 0 {
+				// a stalled client does not read either: the alert NewConn writes must not block it (net.Pipe is synchronous)
+				return
+			}
 			// drain whatever the server writes (alerts), until closed
 			buf := make([]byte, 64)
 			for {
